@@ -33,7 +33,7 @@ REQUIRED_PROBES = ['lazy_reindex_by_point_query', 'molecule_annotation', 'repeat
 def plan(tier):
     if tier == 'quick':
         return {'runs': 6400, 'budget_s': 40, 'chunk': 40, 'per_run_timeout': 120}
-    return {'runs': 400000, 'budget_s': 540, 'chunk': 100, 'per_run_timeout': 240}
+    return {'runs': 1000000, 'budget_s': 540, 'chunk': 100, 'per_run_timeout': 240}
 
 
 def setup():
